@@ -332,9 +332,13 @@ pub fn units(thorough: bool) -> Vec<CUnit> {
         // thorough: full product; all name sets up to 4 items, one per case for 5 items
         let diagonal = !thorough && k == 5;
         let all_sets = thorough && k < 5;
-        let per_sigma = factorial(k) / if diagonal { 8 } else { 1 } * if all_sets { N_SETS as u64 } else { 1 };
-        let chunk = (1500 / per_sigma).max(1);
         for other_access in [false, true] {
+            // the non-plain access forms of 5-item configurations stay on the diagonal
+            // slice in both tiers (the plain read keeps the full product in thorough)
+            let diagonal = diagonal || (other_access && k == 5);
+            let per_sigma =
+                factorial(k) / if diagonal { 8 } else { 1 } * if all_sets { N_SETS as u64 } else { 1 };
+            let chunk = (1500 / per_sigma).max(1);
             for mode_idx in 0..CCase::modes(config).len() {
                 let mut lo = 0;
                 while lo < factorial(k) {
